@@ -1,9 +1,8 @@
 (* Case checker for C07 (itemization).
    kind 1  = the model (on a fresh Segmenter) and the implementation (after the case's reuse history) differ;
    kind 2  = the implementation's output violates the specification (check_itemization, reference bidi parity,
-             hypothesis on the x/text result, ScriptToLang coherence);
-   kind 10 = the only failing part is the reference bidi parity and the range holds a paragraph separator
-             before its last rune (known finding F-C07-1). *)
+             hypothesis on the x/text result, ScriptToLang coherence).
+   (Finding F26, multi-paragraph ranges, is fixed: there is no kind >= 10 any more.) *)
 From TV Require Export Model.Itemize Spec.Itemize.
 Open Scope Z_scope.
 
@@ -15,7 +14,7 @@ Record case := mkCase {
   k_text : list (Z * Z * Z * list Z);   (* per rune: script index, delimiter index, flags, face id per hint key *)
   k_hint : bool;                        (* the Fontmap implements FontmapScript *)
   k_in : list Z;                        (* RunStart, RunEnd, direction bits, face id, size, script *)
-  k_bidi : option (list (Z * bool));    (* x/text on Text[RunStart:RunEnd]: per run (end rune, RightToLeft) *)
+  k_bidi : option (list (Z * bool));    (* x/text on the paragraphs of Text[RunStart:RunEnd]: per run (end rune, RightToLeft) *)
   k_out : list (list Z)                 (* per run: start, end, direction, script, language, face, text, size, features *)
 }.
 
@@ -76,16 +75,9 @@ Definition ref_ok (c : case) : bool :=
   let e := env_of c in let x := in_of c in
   negb (range_ok e x) || parity_ok (map ref_of (k_text c)) (out_of c).
 
-(* F-C07-1: a paragraph separator (bidi class B) before the last rune of the range *)
-Definition has_inner_separator (c : case) : bool :=
-  let x := in_of c in
-  existsb (fun i => is_b (znth (0, 0, 0, []) (k_text c) i)) (zrange (i_start x) (i_end x - 1)).
-
 Definition classify (c : case) : list nat :=
   (if corr_ok c then [] else [1%nat]) ++
-  (if core_ok c then
-     if ref_ok c then [] else if has_inner_separator c then [10%nat] else [2%nat]
-   else [2%nat]).
+  (if core_ok c && ref_ok c then [] else [2%nat]).
 
 Fixpoint check_from (i : nat) (cs : list case) : list (nat * nat) :=
   match cs with
